@@ -159,6 +159,19 @@ def check_equivariance(case):
     gT = LIB_PERM_OPS[g](T)
     # "used": the pattern object has already been searched with (its search table is memoised)
     # before its image is taken - images must not inherit stale search state
+    # bivincular-type patterns are mesh patterns too: built from one-shot requirement containers
+    # they must behave under the symmetries (and the identity) like the equivalent shading
+    k = len(p)
+    cols = [x for x in range(k + 1) if all((x, y) in shs for y in range(k + 1))]
+    rows = [y for y in range(k + 1) if all((x, y) in shs for x in range(k + 1))]
+    if shs and shs == frozenset((x, y) for x in range(k + 1) for y in range(k + 1) if x in cols or y in rows):
+        from permuta import BivincularPatt
+
+        for form in ("list", "iter"):
+            B = BivincularPatt(Perm(p), cols if form == "list" else iter(cols), rows if form == "list" else (y for y in rows))
+            gB = B.rotate().reverse() if g == "anti" else LIB_MESH_OPS[g](B)
+            if sorted(B.occurrences_in(T)) != truth or len(list(gB.occurrences_in(gT))) != len(truth) or gT.contains(gB) != bool(truth) or T.contains(B) != bool(truth):
+                return BAD("equivariance_bivincular", {"g": g, "form": form, "truth": truth, "direct": sorted(B.occurrences_in(T))})
     for history in ("fresh", "used"):
         M = MeshPatt(Perm(p), shs)
         P = Perm(p)
@@ -273,7 +286,7 @@ def shard_mesh_small(acc, shard, nshards, max_k):
 @st.composite
 def equiv_cases(draw):
     p, t = draw(gen.planted(3, 7))
-    sh = draw(gen.shadings(len(p), draw(st.sampled_from(["sparse", "sparse", "half", "lines", "empty"]))))
+    sh = draw(gen.shadings(len(p), draw(st.sampled_from(["sparse", "sparse", "half", "lines", "purelines", "purelines", "empty"]))))
     return [[p, sh], t, draw(st.sampled_from(ref.SYMS))]
 
 
